@@ -65,7 +65,9 @@ def batch(host, dirs, mode="batch"):
 
 
 VARIANTS = [("shuffled", "json", {"shuffle_keys": 1}), ("reversed", "json", {"reverse_keys": True}),
-            ("yaml", "yaml", {"format": "yaml", "shuffle_keys": 2}), ("json5", "json5", {"format": "json5", "shuffle_keys": 3})]
+            ("yaml", "yaml", {"format": "yaml", "shuffle_keys": 2}), ("json5", "json5", {"format": "json5", "shuffle_keys": 3}),
+            # the YAML front end accepts two file extensions
+            ("yml", "yaml", {"format": "yaml", "ext": ".yml"})]
 
 
 def cases_for(tier, seed):
@@ -75,6 +77,14 @@ def cases_for(tier, seed):
     cs += [c for c in c1 if c.tag.startswith("c01_interp")][: (5 if tier == "quick" else 40)]
     cs += suites.c03_cases(tier, seed)[:: (30 if tier == "quick" else 6)]
     cs += suites.c04_cases(tier, seed)[:: (7 if tier == "quick" else 2)]
+    # counts written as numbers (not strings) in typed ranges: the three front ends hand integers to different serde visitors
+    c4 = suites.c04_cases(tier, seed)
+    num = [c for c in c4 if c.project.style.get("numeric_counts") and c.tag.startswith("c04_ranges/")]
+    picked = {}
+    for c in num:
+        picked.setdefault(c.tag.split("/")[1], c)
+    extra = [picked[t] for t in ("u8", "u32", "u64", "i8", "i64", "f32") if t in picked]
+    cs += [c for c in (extra if tier == "quick" else list(picked.values())) if c not in cs]
     cs += suites.c05_cases(tier, seed)[:: (3 if tier == "quick" else 1)]
     cs += suites.c06_cases(tier, seed)[:: (4 if tier == "quick" else 1)]
     cs += suites.c18_cases(tier, seed)[:: (4 if tier == "quick" else 1)]
@@ -282,7 +292,7 @@ def confirm(f):
         a = json.loads(subprocess.run([HOSTS["json"], "eval", f["dirs"][0]], capture_output=True, text=True, env=hostrun.ENV).stdout)
         if len(f["dirs"]) < 2:
             return True
-        fmt = {"yaml": "yaml", "json5": "json5"}.get(f["variant"], "json")
+        fmt = {"yaml": "yaml", "yml": "yaml", "json5": "json5"}.get(f["variant"], "json")
         b = json.loads(subprocess.run([HOSTS[fmt], "eval", f["dirs"][1]], capture_output=True, text=True, env=hostrun.ENV).stdout)
     except Exception:
         return False
